@@ -710,6 +710,18 @@ class Conv:
         if isinstance(n, ast.Starred):
             return t.atom('star', (self.expr(n.value),))
         if isinstance(n, ast.JoinedStr):
+            # f'log_{x}' and 'log_{}'.format(x) are one formatted string
+            tmpl, fargs, plain = '', [], True
+            for v in n.values:
+                if isinstance(v, ast.Constant) and isinstance(v.value, str):
+                    tmpl += v.value.replace('{', '{{').replace('}', '}}')
+                elif isinstance(v, ast.FormattedValue) and v.conversion == -1 and v.format_spec is None:
+                    tmpl += '{}'
+                    fargs.append(self.expr(v.value))
+                else:
+                    plain = False
+            if plain:
+                return t.atom('fmt', (tmpl,) + tuple(fargs))
             return t.atom('fstring', (ast.unparse(n),))
         if isinstance(n, ast.NamedExpr):
             v = self.expr(n.value)
@@ -890,6 +902,14 @@ class Conv:
 
     def call(self, n):
         t = self.tab
+        if isinstance(n.func, ast.Attribute) and n.func.attr == 'format' and isinstance(n.func.value, ast.Constant) \
+                and isinstance(n.func.value.value, str) and not n.keywords and \
+                not any(isinstance(a, ast.Starred) for a in n.args):
+            tmpl = n.func.value.value
+            import re as _re
+            fields = _re.findall(r'(?<!\{)\{([^{}]*)\}(?!\})', tmpl)
+            if all(f == '' for f in fields) and len(fields) == len(n.args):
+                return t.atom('fmt', (tmpl,) + tuple(self.expr(a) for a in n.args))
         name, recv = self.call_name(n.func)
         args = [self.expr(a) for a in n.args]
         kw = tuple(sorted(((k.arg or '**', self.expr(k.value))
